@@ -271,6 +271,7 @@ theorem minv_act {O log keys org start} (hO : GoodOrders O) (hS : Scn log keys o
   | known c => exact minv_world h _ rfl
   | emitSeq n => exact minv_world h _ rfl
   | knowUsers ids => exact minv_users h _
+  | setPriv c on => exact minv_world h _ rfl
   | pushSeq a b ids =>
     simp only [Mgr.act]
     have hes : ∀ e ∈ ids.filterMap (fun i => m.w.log.find? (·.id == i)), e ∈ log := by
